@@ -256,7 +256,7 @@ def main(argv=None):
     ev['coverage'].update(tot.extra)
     os.makedirs(os.path.join(ROOT, 'evidence'), exist_ok=True)
     with open(os.path.join(ROOT, 'evidence', prop + '.json'), 'w') as f:
-        json.dump(ev, f, indent=1, sort_keys=True)
+        json.dump(jsonable(ev), f, indent=1, sort_keys=True)
     for l in lines:
         print(l)
     print('%s tier=%s tasks=%d executions=%d states=%d transitions=%d nontrivial=%d '
